@@ -8,6 +8,10 @@ ids = [p["id"] for p in props]
 
 # id -> (engine, technique, level text, level note, design ref)
 CHECKS = {
+ "C06": ("E5", "bounded-exhaustive deviation lattice over endorsement requests (all subsets of <=3/4 of 26 request deviations) on the real GoldenMeasurement/SignDoc, every document entry compared with an independent computation over the same image bytes",
+         "A baseline request plus every subset of at most 3 (thorough: 4) of 26 deviations (technology subsets, VMSA counts, products, machine-shape lists incl. duplicate and unknown, early accept, SVN, ids valid/invalid, SVSM measurement, commit provenance, timestamp, images valid for one technology only or none) is run through endorse.GoldenMeasurement and endorse.SignDoc; the digest, the exact key set and every SNP value, every TDX row (order, RAM, early flag, MRTD), ids, SVN, SVSM, provenance, timestamp, certificate and the parse-back of the signed payload are compared with harness/ref; a request whose measurement must fail may not yield a document.",
+         "Trusted: harness/ref (tied to the specifications by C04/C05); the discarded error of the early-accept MRTD cannot be triggered by any input found (both modes build the same-sized hand-off block), so only its visible effect (a placeholder/incorrect row) is checked.",
+         "DESIGN.md#c06"),
  "C05": ("E5", "bounded-exhaustive enumeration: all pairs of small interval sets for the unaccepted-memory subtraction against a bitmap model, and all orderings/attribute assignments of valid TDVF section lists x RAM bank lists x launch modes for tdx.MRTD against an independent reference of the MEM.PAGE.ADD / MR.EXTEND record stream and hand-off block",
          "(i) 1.0M pairs of sets of <=3 disjoint intervals over 8 cells (both input orders, zero-length entries) through the exported-by-overlay unacceptedMemRanges vs a bitmap model; (ii) 45k (thorough: all orders, ~400k) images with four firmware-volume layouts, hand-off block of 1-2 pages, 0-2 temp-memory ranges, every extension-attribute assignment, 11 RAM bank lists (all six GCE shapes checked against the documented layout, banks cutting through sections, a bank ending exactly at 4 GiB) and the three launch modes: MRTD and returned regions must equal the reference built from the TDX module spec records and PI-spec HOB layouts.",
          "Trusted: crypto/sha512; early-accept-below-4GiB rule taken from the code's own comment; section sizes are pages, not megabytes; validity of metadata is the statement's precondition (temp memory flagged for extension may be refused); the interval sub-check needs the overlay export.",
